@@ -21,7 +21,7 @@
 \*   Nesting        a closing tag returns to the state its opening init() declared
 \*   NoNullHandler  no reachable state has a null end-tag handler
 \*   StopIsRoot     s_stop is reached exactly when the root element closes without error
-EXTENDS Naturals, Sequences, FiniteSets, TLC, G3Table
+EXTENDS Naturals, Sequences, FiniteSets, TLC, Json, G3Table
 
 CONSTANTS MaxDepth,     \* bound on the element stack
           MaxAfterErr   \* events explored after the first error()
@@ -70,7 +70,9 @@ AfterConsistent == \A j, k \in 1..NI :
         => EffA(Inits[j]) = EffA(Inits[k])
 OpenConsistent == \A j, k \in 1..NI : (j < k /\ Inits[j].s = Inits[k].s /\ Inits[j].t = Inits[k].t) => Inits[j].n = Inits[k].n
 NoStateZero == \A k \in 1..NI : Inits[k].n # "s_error" /\ EffZ(Inits[k]) # "s_error" /\ Inits[k].s # "s_error"
-ASSUME TableOK == PrintT(<<"TABLE", [after |-> AfterConsistent, open |-> OpenConsistent, nozero |-> NoStateZero]>>)
+\* with no init() touching state 0, every slot of its rows keeps the constructor's default: s_error is absorbing for Open and Close
+ErrorRowEmpty == AfterTab["s_error"] = "s_error" /\ DOMAIN OpenIx["s_error"] = {} /\ DataTab["s_error"] = "white_spaces" /\ EtagTab["s_error"] = "end_tag"
+ASSUME TableOK == PrintT(<<"TABLE", [after |-> AfterConsistent, open |-> OpenConsistent, nozero |-> NoStateZero, errorrow |-> ErrorRowEmpty]>>)
 
 \* ---- CoreParser::error(): only the first error is stored; it sets state = 0
 ErrState(cur) == IF err THEN cur ELSE "s_error"
@@ -114,7 +116,8 @@ Close(refuse) ==
     /\ (refuse => EtagTab[st] # "end_tag")
     /\ IF refuse
           THEN st' = ErrState(st) /\ err' = TRUE
-          ELSE st' = AfterTab[st] /\ err' = err
+          ELSE \* end_tag: state = after[state]; a slot init() never filled is s_error and is reported by error()
+               st' = AfterTab[st] /\ err' = (err \/ AfterTab[st] = "s_error")
     /\ stack' = Tail(stack)
     /\ out' = out /\ Tick
     /\ ev' = [k |-> "close", t |-> Head(stack).t, refuse |-> refuse, from |-> st, a |-> Head(stack).a]
@@ -145,7 +148,16 @@ Finish ==
     /\ UNCHANGED <<st, stack, err, nerr>>
     /\ ev' = [k |-> "finish"]
 
-Next == \/ \E t \in Tags, attr \in BOOLEAN : Open(t, attr)
+\* a tag tag() knows but next[st] has no entry for: one representative stands for all of them (same successor)
+OpenInvalid ==
+    /\ Running /\ ~RootClosed /\ Len(stack) < MaxDepth
+    /\ st' = ErrState(st) /\ err' = TRUE
+    /\ stack' = <<[t |-> "t_invalid", a |-> "none"]>> \o stack
+    /\ out' = out /\ Tick
+    /\ ev' = [k |-> "open", t |-> "t_invalid", attr |-> FALSE]
+
+Next == \/ \E t \in DOMAIN OpenIx[st], attr \in BOOLEAN : Open(t, attr)
+        \/ OpenInvalid
         \/ OpenUnknown
         \/ \E r \in BOOLEAN : Close(r)
         \/ \E r \in BOOLEAN : Text(r)
@@ -155,6 +167,10 @@ Next == \/ \E t \in Tags, attr \in BOOLEAN : Open(t, attr)
 Spec == Init /\ [][Next]_vars
 
 Bound == nerr <= MaxAfterErr
+
+\* every transition of the state graph, for the replay on the real parser (ACTION_CONSTRAINT in the emitting configuration)
+Snap(a, b, c, d, e, f) == [st |-> a, stack |-> b, err |-> c, out |-> d, nerr |-> e, ev |-> f]
+EmitStep == PrintT("CASE " \o ToJson([u |-> Snap(st, stack, err, out, nerr, ev), v |-> Snap(st', stack', err', out', nerr', ev')]))
 
 \* ---------------------------------------------------------------- properties
 \* a refusal carries the line of an error() call (never "error on line 0" with an empty message)
